@@ -297,7 +297,7 @@ Section Stmt.
         intros W. pose proof (Hev s1 (ENew cls args) W) as H.
         destruct (ev s1 (ENew cls args)) as [obj s2|e s2| |w]; cbn [bind]; try exact I.
         * split; [apply R_ok_e_to_er; assumption|]. intros Hn. exfalso. apply Hn. reflexivity.
-        * destruct H as [H1 H2]. split; [exact H1|]. intros Hn. exfalso. apply Hn. exact H2.
+        * destruct H as [H1 H2]. split; [apply R_er_e_er; assumption|]. intros Hn. exfalso. apply Hn. exact H2.
       + apply bal_e_s, Hev.
       + apply bal_s_ok_refl.
       + apply bal_s_ok_refl.
